@@ -8,6 +8,9 @@
 import H2.Proofs.Shapes
 import H2.Proofs.Send
 import H2.Proofs.StreamLemmas
+import H2.Proofs.PairFsm
+-- the stream machine seen from both ends: a stream we reset swallows whatever the peer still sends
+-- @also H2.PairFsm.reset_swallows
 
 namespace H2.C20
 open H2 H2.Gen H2.Conn
